@@ -233,6 +233,38 @@ def numba_bodies(np):
     return {k: ns[k] for k in found}
 
 
+def outtimes_part(run, np, dsp):
+    """growth: the outlier-time heuristic of fixtime (times more than 3 sigma from the mean are deleted) against the integer rule of the spec"""
+    res = tlc.run("PsdDsp", "MC_PsdDsp_outtimes.cfg", timeout=600)
+    run.add_tlc("MC_PsdDsp_outtimes.cfg", res, "records of 11-14 samples with one displaced time stamp; OutLaws (integer 3-sigma rule)")
+    if res.violation:
+        run.violation("TLC: %s on the outlier-time model" % res.violation, {"tlc": res.error_text()}, {"where": "model"})
+        return
+    dt = 0.125
+    sr = 8.0
+    spec = "PsdDsp (outlier times)"
+    for n, pos, at, times, outl in res.tagged("OUTT"):
+        t = np.array(times, float) * dt
+        d = 100.0 + np.arange(n)
+        outl = sorted(int(i) - 1 for i in outl)
+        case = {"times_in_steps": list(times), "outliers_by_rule": outl}
+        run.case(("outt", n, pos, at), nontrivial=bool(outl), part="fixtime outlier times (growth)")
+        try:
+            keep = np.array([i for i in range(n) if i not in outl])
+            tn, dn = dsp.fixtime((t, d), sr=sr, verbose=False)
+            tc, dc = dsp.fixtime((t[keep], d[keep]), sr=sr, verbose=False, delouttimes=False)
+            if tn.tobytes() != tc.tobytes() or dn.tobytes() != dc.tobytes():
+                run.deviation(spec, "fixtime(delouttimes=True) is not fixtime of the record without the samples the 3-sigma rule names", case)
+            tk, dk = dsp.fixtime((t, d), sr=sr, verbose=False, delouttimes=False)
+            L = int(round((t.max() - t.min()) * sr)) + 1
+            # a stamp displaced to a place INSIDE the record shares its grid point with another sample: only one of the two can stay
+            if len(tk) != L or not set(d.tolist()) >= set(dk.tolist()) or (not 0 <= at <= n - 1 and d[pos - 1] not in dk):
+                run.deviation(spec, "fixtime(delouttimes=False) does not keep every time stamp (length %d, expected %d)" % (len(tk), L), case)
+        except Exception as ex:
+            run.deviation(spec, "fixtime raised %r" % ex, case)
+        run.trace_validated()
+
+
 def fixtime_part(run, np, dsp):
     cfg = "MC_PsdDsp_fixtime.cfg" if run.tier == "quick" else "MC_PsdDsp_fixtime_t.cfg"
     res = tlc.run("PsdDsp", cfg, timeout=1200)
@@ -438,6 +470,7 @@ def body(run: Run, replay):
     rescale_part(run, np, psd, T)
     resample_part(run, np, dsp, T)
     fixtime_part(run, np, dsp)
+    outtimes_part(run, np, dsp)
     area_part(run, np, psd, T)
 
 
